@@ -253,7 +253,7 @@ func cmdCheck(args []string) int {
 	if len(samples) == 0 {
 		samples = append(samples, map[string]interface{}{"note": "no vacuity witness produced"})
 	}
-	var asm []string
+	asm := []string{"bounded claim: holds for every input within the stated bounds under the listed dependency contracts; nothing is claimed outside them"}
 	for a := range assumptions {
 		asm = append(asm, a)
 	}
@@ -282,7 +282,7 @@ func cmdCheck(args []string) int {
 			"queries_per_backend":           perBackend,
 			"solver_time_s":                 float64(smt.GlobalStats.Nanos) / 1e9,
 			"load_ssa_s":                    loadS,
-			"inconclusive":                  inconclusive,
+			"inconclusive":                  nonNil(inconclusive),
 			"exhaustive":                    len(inconclusive) == 0,
 		},
 		"assumptions": asm,
@@ -311,6 +311,13 @@ func cmdCheck(args []string) int {
 	fmt.Printf("PASS property=%s tier=%s paths=%d ssa_steps=%d queries(sat=%d,unsat=%d) replayed=%d wall=%.1fs\n", id, *tier, totalStates, totalSteps,
 		smt.GlobalStats.Sat, smt.GlobalStats.Unsat, validated, wall)
 	return 0
+}
+
+func nonNil(s []string) []string {
+	if s == nil {
+		return []string{}
+	}
+	return s
 }
 
 func writeCex(path, prop, harness string, f *sx.Failure) {
